@@ -221,6 +221,38 @@ func Poly.Label() => string {
 func Wrap.Area() => int { return this.p.a + len(this.p.v) }
 func Wrap.Label() => string { return "wrap:" + this.p.s }
 
+type Closer interface {
+	Close() => *Node
+	Text(n: int) => string
+	Rows() => []int
+}
+
+type Res :struct {
+	name: string
+	data: []int
+}
+
+func Res.Close() => *Node { return &Node{val: len(this.data), name: this.name + "#"} }
+func Res.Text(n: int) => string { return this.name + itoa(n) }
+func Res.Rows() => []int { return append(this.data, len(this.name)) }
+
+func deferIface(c: Closer, k: int) => int {
+	defer c.Close()
+	if k%2 == 0 {
+		defer c.Text(k)
+	}
+	defer c.Rows()
+	return k + 1
+}
+
+func deferConcrete(r: *Res, k: int) => int {
+	defer r.Close()
+	defer r.Rows()
+	defer itoa(k)
+	defer mkPair(k, r.name, r.data, nil)
+	return k + 2
+}
+
 func mix(h: i64, v: i64) => i64 {
 	h = (h ^ v) * 1099511628211
 	h = h ^ (h >> 29)
@@ -468,6 +500,10 @@ func earlyExit(s: []int, t: string, n: int) => int {
 		}
 	}
 	return len(w)
+}
+
+func c0(c: Closer) => int {
+	return len(c.Rows())
 }
 
 func joinAll(sep: string, xs: ...string) => string {
@@ -861,6 +897,9 @@ func (g *gen) formOps2() {
 	g.add("self append", fmt.Sprintf("t := %s\nif len(t) > 0 && len(t) < 20 {\nt = append(t, t...)\n%s = t\n}\nreturn hSI(t)", si("a"), si("a")))
 	g.add("labeled break and continue with live refs", fmt.Sprintf("acc := \"\"\nouter:\nfor i := 0; i < 3; i++ {\nx := %s + itoa(i)\nfor j := 0; j < 3; j++ {\ny := x + itoa(j)\nif (i+j+c)%%4 == 0 {\ncontinue outer\n}\nif (i*j+b)%%7 == 6 {\nbreak outer\n}\nif len(acc) < 60 {\nacc += y\n}\n}\n}\n%s = acc\nreturn hStr(acc)", str("b"), str("a")))
 	g.add("switch paths holding refs", fmt.Sprintf("x := %s\nswitch c %% 4 {\ncase 0:\nx = x + \"0\"\ncase 1, 3:\nx = x + \"1\"\ncase 2:\ny := x\nx = y + y\ndefault:\nx = \"\"\n}\nif len(x) > 100 {\nx = x[:10]\n}\n%s = x\nreturn hStr(x)", str("b"), str("a")))
+	g.add("deferred interface-method calls whose results are dropped", fmt.Sprintf("cl: Closer = &Res{name: %s, data: %s}\nn := deferIface(cl, b)\nx := cl.Close()\nreturn i64(n) + hN(x) + hStr(cl.Text(c0(cl)))", str("b"), si("c")))
+	g.add("deferred concrete-method and function calls whose results are dropped", fmt.Sprintf("r := &Res{name: %s, data: %s}\nreturn i64(deferConcrete(r, b))", str("b"), si("c")))
+	g.add("interface method results dropped or used directly", fmt.Sprintf("cl: Closer = &Res{name: %s, data: %s}\ncl.Close()\ncl.Rows()\n%s = cl.Text(b)\n%s = cl.Rows()\nreturn hStr(%s) + hSI(%s)", str("b"), si("c"), str("a"), si("a"), str("a"), si("a")))
 	g.add("defer in a loop", fmt.Sprintf("r := %s\nfunc() {\nfor i := 0; i < 3; i++ {\nk := itoa(i + c)\ndefer func() {\nif len(r) < 80 {\nr = r + k\n}\n}()\n}\n}()\n%s = r\nreturn hStr(r)", str("b"), str("a")))
 	g.add("new(T) and store through pointer", fmt.Sprintf("p := new(Pair)\n*p = Pair{a: b, s: %s, v: %s}\n*p = Pair{a: c, s: p.s + \"n\", v: p.v}\nq := new(string)\n*q = p.s\n%s = *q\nreturn hV(*p)", str("b"), si("c"), str("a")))
 	g.add("map of maps", fmt.Sprintf("mm := make(map[string]map[int]string)\nfor i := 0; i < 3; i++ {\nk := \"m\" + itoa((b+i)%%2)\nif _, ok := mm[k]; !ok {\nmm[k] = make(map[int]string)\n}\nmm[k][i] = %s\n}\nh: i64 = 0\nfor k, m := range mm {\nh += mix(hStr(k), hMISx(m))\n}\ndelete(mm, \"m0\")\nreturn h + i64(len(mm))", str("c")))
